@@ -32,6 +32,9 @@ USES = [0, 1, 2, 3, 4, 6]
 CANDIDATES = ['A', 'AA']
 
 
+from ..absnodes import public_value
+
+
 def cells(tier):
     out = []
     for form in sorted(FORMS):
@@ -68,7 +71,7 @@ def evaluate(model, form, X, uses, cand):
         for o in walk(mod):
             if o.cls == 'FunctionDef' and o.attrs.get('name') == 'f':
                 for b in o.attrs.get('bindings') or []:
-                    if isinstance(b, Obj) and b.attrs.get('_name') == X:
+                    if isinstance(b, Obj) and public_value(model, b, 'name') == X:
                         target = b
         if target is None:
             raise AnalysisError('cost probe %r: no binding for %s in f' % (source, X))
